@@ -12,7 +12,9 @@ import (
 	"regexp"
 	"sort"
 	"strings"
+	"syscall"
 	"time"
+	"unsafe"
 
 	"github.com/osteele/liquid"
 	"github.com/osteele/liquid/render"
@@ -56,6 +58,7 @@ type C02Exec struct {
 	Again    bool   `json:"repeat,omitempty"`
 	Reconf   bool   `json:"reconfigured_engine,omitempty"` // engine first used with other delimiters, then given this configuration
 	CLI      bool   `json:"cli,omitempty"`
+	TTY      bool   `json:"cli_stdout_is_a_terminal,omitempty"` // with CLI: standard output is a pseudo-terminal (raw mode), not a pipe
 }
 
 type C02Case struct {
@@ -267,7 +270,7 @@ func (x *c02Run) engine(h uint64) *liquid.Engine {
 
 func (x *c02Run) exec(ex *C02Exec) Res {
 	if ex.CLI {
-		return x.execCLI()
+		return x.execCLI(ex.TTY)
 	}
 	e := x.engine(ex.History)
 	if ex.Reconf {
@@ -325,7 +328,63 @@ func (x *c02Run) exec(ex *C02Exec) Res {
 	return res
 }
 
-func (x *c02Run) execCLI() Res {
+// openPTY returns the two ends of a fresh pseudo-terminal whose output processing is
+// off (bytes written to the slave arrive unchanged at the master). Linux only.
+func openPTY() (master, slave *os.File, err error) {
+	ioctl := func(fd, req uintptr, arg unsafe.Pointer) error {
+		if _, _, e := syscall.Syscall(syscall.SYS_IOCTL, fd, req, uintptr(arg)); e != 0 {
+			return e
+		}
+		return nil
+	}
+	master, err = os.OpenFile("/dev/ptmx", os.O_RDWR|syscall.O_NOCTTY, 0)
+	if err != nil {
+		return nil, nil, err
+	}
+	var unlock, n int32
+	if err = ioctl(master.Fd(), syscall.TIOCSPTLCK, unsafe.Pointer(&unlock)); err == nil {
+		err = ioctl(master.Fd(), syscall.TIOCGPTN, unsafe.Pointer(&n))
+	}
+	if err == nil {
+		slave, err = os.OpenFile(fmt.Sprintf("/dev/pts/%d", n), os.O_RDWR|syscall.O_NOCTTY, 0)
+	}
+	if err == nil {
+		var t syscall.Termios
+		if err = ioctl(slave.Fd(), syscall.TCGETS, unsafe.Pointer(&t)); err == nil {
+			t.Oflag &^= syscall.OPOST
+			t.Lflag &^= syscall.ECHO
+			err = ioctl(slave.Fd(), syscall.TCSETS, unsafe.Pointer(&t))
+		}
+	}
+	if err != nil {
+		master.Close()
+		if slave != nil {
+			slave.Close()
+		}
+		return nil, nil, err
+	}
+	return master, slave, nil
+}
+
+// noPTY: no pseudo-terminal on this machine (probed once per process, so that the plan of
+// executions is the same in every process): the dimension is then skipped.
+var noPTY, ptyProbed bool
+
+func probePTY() {
+	if ptyProbed {
+		return
+	}
+	ptyProbed = true
+	m, s, err := openPTY()
+	if err != nil {
+		noPTY = true
+		return
+	}
+	m.Close()
+	s.Close()
+}
+
+func (x *c02Run) execCLI(tty bool) Res {
 	args := []string{"--env"}
 	if x.cs.Cfg.Strict {
 		args = append(args, "--strict")
@@ -350,9 +409,36 @@ func (x *c02Run) execCLI() Res {
 	if !fromFile {
 		cmd.Stdin = strings.NewReader(x.src)
 	}
+	cmd.Env = append(cmd.Env, "TZ="+curTZ)
 	var so, se bytes.Buffer
 	cmd.Stdout, cmd.Stderr = &so, &se
-	err := cmd.Run()
+	var err error
+	if tty {
+		master, slave, perr := openPTY()
+		if perr != nil {
+			noPTY = true
+			return Res{Panic: "no pseudo-terminal: " + perr.Error()}
+		}
+		cmd.Stdout = slave
+		done := make(chan struct{})
+		go func() { // drain the master while the child runs; ends with EIO once the slave is closed
+			buf := make([]byte, 4096)
+			for {
+				n, rerr := master.Read(buf)
+				so.Write(buf[:n])
+				if rerr != nil {
+					break
+				}
+			}
+			close(done)
+		}()
+		err = cmd.Run()
+		slave.Close()
+		<-done
+		master.Close()
+	} else {
+		err = cmd.Run()
+	}
 	if err == nil {
 		return Res{OK: true, Out: so.String()}
 	}
@@ -427,6 +513,9 @@ func c02Plan(r *Rng, cs *C02Case) (canon *C02Exec, vars []struct {
 	}
 	if cs.EnvOnly && !mayReadClock(cs) { // the child reads the real clock
 		add("cli-process", func(e *C02Exec) { e.CLI = true })
+		if probePTY(); !noPTY && r.Chance(0.5) {
+			add("cli-process", func(e *C02Exec) { e.CLI, e.TTY = true, true }) // standard output is a terminal
+		}
 	}
 	for i := 0; i < 4; i++ { // random combinations
 		add("combination", func(e *C02Exec) {
@@ -530,6 +619,12 @@ func c02Find(c *Ctx, cs *C02Case, r *Rng, out *CaseOut, wantSig string) []c02Fai
 		same := res.Key() == base.Key()
 		if v.ex.CLI {
 			same = cliKey(res) == cliKey(base)
+			if v.ex.TTY && strings.HasPrefix(res.Panic, "no pseudo-terminal") {
+				if c != nil {
+					c.count("cli_terminal_unavailable", 1)
+				}
+				continue
+			}
 		}
 		if !same {
 			kind := "diverge"
